@@ -5,7 +5,7 @@ From Verif Require Import Lib.Py.
 Open Scope Z_scope.
 
 (* ------------------------------------------------------------------------------------------
-   aiocoap/util/asyncio/timeoutdict.py:12-68 — TimeoutDict.
+   aiocoap/util/asyncio/timeoutdict.py:12-72 — TimeoutDict.
    [td_items] is the dict (insertion ordered), [td_timer] is [None] while [self._timeout is None]
    and otherwise [Some (due, recently_accessed)]: the instant (µs) at which the pending
    [call_later(self.timeout, self._tick)] fires, and [self._recently_accessed]. *)
@@ -29,10 +29,10 @@ Section TimeoutDict.
     end.
   Definition kmem (k : K) (l : list K) : bool := existsb (keqb k) l.
 
-  (* timeoutdict.py:47-50 _start_over *)
+  (* timeoutdict.py:51-54 _start_over *)
   Definition td_start_over (T now : Z) (d : td) : td :=
     {| td_items := td_items d; td_timer := Some (now + T, []) |}.
-  (* timeoutdict.py:52-58 _accessed: when no timer runs one is started and the key is NOT recorded *)
+  (* timeoutdict.py:56-62 _accessed: when no timer runs one is started and the key is NOT recorded *)
   Definition td_accessed (T now : Z) (k : K) (d : td) : td :=
     match td_timer d with
     | None => td_start_over T now d
@@ -55,7 +55,7 @@ Section TimeoutDict.
   (* in-place mutation of a stored object (Python aliasing): the dict is not "accessed" *)
   Definition td_mutate (k : K) (v : V) (d : td) : td :=
     {| td_items := alist_set k v (td_items d); td_timer := td_timer d |}.
-  (* timeoutdict.py:60-68 _tick, running at virtual time [now] (= the due time of the timer) *)
+  (* timeoutdict.py:64-72 _tick, running at virtual time [now] (= the due time of the timer) *)
   Definition td_tick (T now : Z) (d : td) : td :=
     match td_timer d with
     | None => d
